@@ -1,5 +1,6 @@
 """C04 — integrator assembly."""
 from vcommon import *
+import tab_k
 import api_k
 
 PID = "C04"
@@ -15,6 +16,7 @@ def run(tier, replay=None):
                        "entry of integrals / first_derivs / second_derivs from the integrator's own low-level blocks (1e-12 x "
                        "largest entry); a system is distinct by (order, atom assignment of shells and ECPs, shell momenta)")
     ok = coq_properties(res, PID)
+    tab_ok, tab_fail = tab_k.obligations(res, PID)
     if not ok and not res.violations:
         proof_broken(res, PID, "Properties_C04.v no longer checks")
     bad = api_k.run_k(res, tier)
@@ -31,4 +33,5 @@ def run(tier, replay=None):
         "(the 1e-4 atom matching vs 1e-6 low-level coincidence gap is outside the property's quantifier)",
         "the API-level screening mask is recomputed in the driver with the public shell_bound (screening itself is C06)",
         "extraction by ExtrOcamlBasic; OCaml doubles"]
+    tab_k.report(res, PID, tab_ok, tab_fail)
     return res.finish()
